@@ -361,7 +361,7 @@ fn ast_hashes(ast: &Ast) -> (u64, u64) {
 // ---------------------------------------------------------------------------------------------
 // seeded program generator (well-formedness of the bytecode matters; programs need not terminate)
 // Envelope: no `return`/`break`/`continue` inside list/tuple/string-interpolation expressions or
-// try blocks, no function literal in statement position (documented shapes of F-C05-5/-6/-4).
+// try blocks (documented shapes of F-C05-5/-6).
 // ---------------------------------------------------------------------------------------------
 
 struct Gen {
@@ -699,7 +699,13 @@ impl Gen {
                 // captures: any of the visible outer variables, and the function itself
                 let cap = self.outer_for_nested(sc, Some(&f));
                 let ret = if self.rng.chance(1, 6) && !is_gen { " -> Any" } else { "" };
-                self.line(ind, &format!("{} = |{}|{}", f, sig.join(", "), ret));
+                // one in four is a literal in statement position: its value is unused (former F-C05-4)
+                let unused = self.rng.chance(1, 4);
+                if unused {
+                    self.line(ind, &format!("|{}|{}", sig.join(", "), ret));
+                } else {
+                    self.line(ind, &format!("{} = |{}|{}", f, sig.join(", "), ret));
+                }
                 let mut b = Scope { vars: ps, cap, in_loop: false, in_fn: true, in_gen: is_gen, no_jump: false };
                 self.block(&mut b, ind + 1, d - 1);
                 if is_gen {
@@ -709,7 +715,9 @@ impl Gen {
                     let e = self.expr(&b, 1);
                     self.line(ind + 1, &e);
                 }
-                sc.vars.push(f);
+                if !unused {
+                    sc.vars.push(f);
+                }
             }
             21 => {
                 if sc.in_fn && !sc.no_jump {
@@ -725,6 +733,15 @@ impl Gen {
                     let e = self.expr(sc, 1);
                     self.line(ind, &format!("debug {}", e));
                 }
+            }
+            22 if self.rng.chance(1, 3) => {
+                // one-line function literal as a statement
+                let p = self.fresh("p");
+                let cap = self.outer_for_nested(sc, None);
+                let fsc = Scope { vars: vec![p.clone()], cap, in_loop: false, in_fn: true, in_gen: false, no_jump: false };
+                let e = self.expr(&fsc, 2);
+                let dflt = if self.rng.chance(1, 3) { format!(" = {}", self.lit()) } else { String::new() };
+                self.line(ind, &format!("|{}{}| {}", p, dflt, e));
             }
             22 => {
                 let v = self.fresh("v");
@@ -1497,9 +1514,7 @@ impl Ctx {
         let (name, rest) = reason.split_once('@').unwrap_or((reason, ""));
         let _ = rest;
         let unbalanced = name == "unbalanced-builders-or-try";
-        let id = if name == "NewFrame-inside-unit" && p.shape.functions >= 1 {
-            Some("F-C05-4")
-        } else if unbalanced && p.shape.jump_in_builder {
+        let id = if unbalanced && p.shape.jump_in_builder {
             Some("F-C05-5")
         } else if unbalanced && p.shape.jump_in_try {
             Some("F-C05-6")
